@@ -1074,8 +1074,9 @@ m("C04", "rejected-request-recorded-on-channel", GS,
   "C04.9", "a rejected graphsync request becomes the channel's current request", "seeded/C16r3b")
 m("C07", "non-unique-report-lowers-mark", CH,
   "	// if this is not a unique block, no data progress is made, return\n	if !unique {\n		return\n	}",
-  "	// if this is not a unique block, no data progress is made, return\n	if !unique {\n		_, _ = c.blockIndexCache.updateIfGreater(evt, chid, index, readFromOriginal)\n		return\n	}",
-  "C07.3", "a non-unique report touches the high-water mark", "seeded/C07r3a")
+  "	// if this is not a unique block, no data progress is made, return\n	if !unique {\n		err = c.blockIndexCache.set(evt, chid, index, readFromOriginal)\n		return\n	}",
+  "C07.3", "a non-unique report lowers the cached high-water mark", "seeded/C07r3a",
+  more=[("type progressState struct {", "func (bic *blockIndexCache) set(evt datatransfer.EventCode, chid datatransfer.ChannelID, newIndex int64, readFromOriginal readIndexFn) error {\n	value, err := bic.getValue(evt, chid, readFromOriginal)\n	if err != nil {\n		return err\n	}\n	atomic.StoreInt64(value, newIndex)\n	return nil\n}\n\ntype progressState struct {", CA)])
 m("C17", "unsubscribe-asynchronous", IMPL,
   "	return datatransfer.Unsubscribe(m.pubSub.Subscribe(subscriber))",
   "	unsub := m.pubSub.Subscribe(subscriber)\n	return func() { go unsub() }",
